@@ -143,6 +143,10 @@ def run(ctx, rep):
     im2 = [b for b in range(len(s.blocks)) if s.term(b).op == 'br' and len(s.term(b).ops) == 3 and 'is_modified' in s.expr(s.term(b).ops[0])]
     nw = [i for i in s.all_insts() if i.op == 'store' and s.expr(i.ops[1]).endswith('->need_write') and s.const_of(i.ops[0]) == 1]
     rep.rule('R-C17-4', 'changed split sizes set need_write, and the Q record carries them (R-C10-1/2)', 1)
+    chsize_full_size_rule(P, rep, 'R-C17-3f')
+    split_index_guard_rule(P, rep, 'R-C17-7')
+    from .C08 import sticky_failure_rule
+    sticky_failure_rule(P, rep, 'R-C17-6')
     rep.check(bool(im2) and bool(nw), 'R-C17-4', 'state_sync: is_modified => need_write', s.file, '', function='state_sync', construct='need_write')
 
 
@@ -397,3 +401,74 @@ def offset_width_rule(P, rep, rid):
         for c in cs:
             walk(c.ops[3])
         rep.check(not narrow, rid, '%s: offset of %s' % (fn, prim), cs[0].loc(), '64-bit arithmetic' if not narrow else narrow[0] + ': blocks beyond 4 GiB of a file are read / written at the wrong place', function=fn, construct='offset width')
+
+
+def chsize_full_size_rule(P, rep, rid, fname='state_check'):
+    """fix resizes every parity file to the size of the whole array (block_size x parity_allocated_size()); the requested block
+    range (-S/-B) only bounds the stripes that are processed.  A size derived from the clipped range truncates the parity of every
+    stripe behind the range (C06e-a / C12e-a).  Decided on the value flow of the size argument (reaching definitions), not on names."""
+    rep.rule(rid, '%s: the size handed to parity_chsize is computed only from block_size and parity_allocated_size(), never from the requested block range' % fname, 1)
+    f = P.fn(fname)
+    rep.analysed(f)
+    cs = list(f.calls('parity_chsize'))
+    if not cs:
+        raise AnalysisBroken('%s: parity_chsize call not found' % fname)
+    for c in cs:
+        szarg = c.ops[3]
+        src = f.value_sources(szarg)
+        want = {('mem', 'state->block_size'), ('call', 'parity_allocated_size')}
+        extra = sorted(str(x) for x in src - want)
+        ok = want <= src and not extra
+        rep.check(ok, rid, '%s: parity_chsize(size) derives from parity_allocated_size() * block_size only' % fname, c.loc(),
+                  'sources of the size argument: %s' % sorted(str(x) for x in src) if ok else 'the size argument also depends on %s (sources: %s): a ranged fix would shrink the parity files to the end of the range' % (extra or 'nothing else but misses %s' % sorted(str(x) for x in want - src), sorted(str(x) for x in src)),
+                  function=fname, construct='parity_chsize size')
+
+
+def _icmp(pred, a, b):
+    return {'eq': a == b, 'ne': a != b, 'ult': a < b, 'ule': a <= b, 'ugt': a > b, 'uge': a >= b,
+            'slt': a < b, 'sle': a <= b, 'sgt': a > b, 'sge': a >= b}[pred]
+
+
+def split_index_guard_rule(P, rep, rid, fname='state_read_content'):
+    """the loader stores the recorded path / uuid / size of split s of a parity level only when s is a configured split of that level
+    (s < split_mac); a recorded split past the configuration must be refused (if in use) or dropped.  The rule finds every variable
+    index into split_map[] and demands a dominating branch edge that implies index < split_mac of the same level -- decided by
+    evaluating the comparison over small values, so any equivalent spelling of the test passes"""
+    f = P.fn(fname)
+    rep.analysed(f)
+    rep.rule(rid, '%s: every split_map[s] access with a variable s is dominated by a test implying s < split_mac of the same parity level' % fname, 4)
+    n = 0
+    for g in f.all_insts():
+        if g.op != 'getelementptr' or len(g.ops) != 3 or f.const_of(g.ops[2]) is not None:
+            continue
+        e = f.expr(['i', g.id])
+        if not e.endswith(']') or '.split_map[' not in e:
+            continue
+        basee = e[1:e.rindex('.split_map[')] if e.startswith('&') else e[:e.rindex('.split_map[')]
+        idx_src = f.xexpr(g.ops[2])
+        n += 1
+        ok = False
+        seen_tests = []
+        for b in range(len(f.blocks)):
+            t = f.term(b)
+            if t.op != 'br' or len(t.ops) != 3:
+                continue
+            ci = f.inst_of(t.ops[0])
+            if ci is None or ci.op != 'icmp':
+                continue
+            l, r = f.xexpr(ci.ops[0]), f.xexpr(ci.ops[1])
+            mac = basee + '.split_mac'
+            if {l, r} != {idx_src, mac}:
+                continue
+            for edge_true, sb in ((True, t.ops[2][1]), (False, t.ops[1][1])):   # LLVM operand order: cond, false, true
+                if not f.edge_dominates(t, sb, g):
+                    continue
+                implies = all((i_ < m_) for i_ in range(4) for m_ in range(4)
+                              if _icmp(ci.pred, *((i_, m_) if l == idx_src else (m_, i_))) == edge_true)
+                seen_tests.append('%s %s %s is %s' % (l, ci.pred, r, edge_true))
+                ok = ok or implies
+        rep.check(ok, rid, '%s: %s only for a configured split' % (fname, e.lstrip('&')), g.loc(),
+                  'dominating test: %s' % seen_tests if ok else 'no dominating test implies %s < %s.split_mac (tests on the way: %s): the entry of a split that is not configured is overwritten / accepted' % (idx_src, basee, seen_tests or 'none'),
+                  function=fname, construct='split_map index guard')
+    if n == 0:
+        raise AnalysisBroken('%s: no variable split_map[] access found' % fname)
